@@ -106,6 +106,22 @@ func c06(c *Ctx) {
 			}
 			arg := ci.Common().Args[1]
 			nDec++
+			// the object decoded into must be a fresh one: decoding into a shared *uint256.Int
+			// (the loaded radius, a package-level value) changes what every holder of it sees
+			if fn.Pkg == m.ctor.Pkg || (fn.Parent() != nil && fn.Parent().Pkg == m.ctor.Pkg) {
+				recv := core.Unwrap(ci.Common().Args[0])
+				fresh := false
+				switch x := recv.(type) {
+				case *ssa.Alloc:
+					fresh = true
+				case *ssa.Call:
+					id2 := core.CalleeID(x)
+					fresh = id2 == "github.com/holiman/uint256.NewInt" || strings.HasPrefix(id2, "github.com/holiman/uint256.(*Int).Clone")
+				}
+				perFn["recv"]++
+				r.Check(fresh, "R5.radius-writers", fmt.Sprintf("%s decode-target #%d", core.FuncName(fn), perFn["recv"]), p.Pos(ci.Pos()),
+					"decodes into a freshly allocated value", "a key is decoded in place into an existing uint256 object (the shared radius / a package-level value): the advertised radius of every store holding that object changes without a prune of its own and can grow")
+			}
 			switch {
 			case isKeyBytes(arg):
 				perFn["key"]++
